@@ -174,7 +174,15 @@ class Origins:
             alts = tuple(self.proj_field(a, p) for a in ex[1])
             return mk_phi(alts)
         if ex[0] == "downcast" and ex[2] == "Continue" and ex[1][0] == "call" and ex[1][1].endswith("Try>::branch"):
-            return ("try", ex[1][3][0])
+            inner = ex[1][3][0]
+            # `opt.ok_or(e)?` / `opt.ok_or_else(f)?` is the payload of `opt`
+            if inner[0] == "call" and last_seg(inner[1]) in ("ok_or", "ok_or_else") and inner[3]:
+                return some_payload(inner[3][0])
+            return ("try", inner)
+        if ex[0] == "downcast" and ex[2] == "Some" and i == 0:
+            sp = some_payload(ex[1])
+            if sp[0] != "field":
+                return sp
         if ex[0] == "downcast" and ex[1][0] == "agg" and ex[1][1] == "adt" and ex[1][3] == ex[2]:
             for fname, fex in ex[1][4]:
                 if fname == name:
@@ -286,6 +294,19 @@ class Origins:
     def call_args(self, cs):
         n = len(self.body.blocks[cs.bb]["stmts"])
         return [self.operand(a, cs.bb, n) for a in cs.args]
+
+
+CHECKED = {"checked_sub": "Sub", "checked_add": "Add", "checked_mul": "Mul", "checked_div": "Div"}
+
+
+def some_payload(opt):
+    """value inside `Some` of an Option-valued origin: checked arithmetic is its plain operation"""
+    o = opt
+    while o[0] in ("ref", "deref", "mut"):
+        o = o[1]
+    if o[0] == "call" and last_seg(o[1]) in CHECKED and len(o[3]) == 2:
+        return ("bin", CHECKED[last_seg(o[1])], o[3][0], o[3][1])
+    return ("field", ("downcast", opt, "Some"), "0", "")
 
 
 def mk_phi(alts):
